@@ -6,6 +6,7 @@ cd "$(dirname "$0")/.."
 export GOFLAGS=-mod=mod GOPROXY=off GOSUMDB=off GOTOOLCHAIN=local
 dir="$1"; par="${2:-3}"
 props=$(python3 -c "import json;print(' '.join(c['property_id'] for c in json.load(open('MANIFEST.json'))['checks']))")
+[ -n "${HARMLESS_PROPS:-}" ] && props="$HARMLESS_PROPS"
 one() {
   d="$(cd "$1" && pwd)"; name=$(basename $(dirname $d))-$(basename $d)
   r=/var/tmp/harmless.$$.$name; rm -rf $r; cp -r /repo $r
